@@ -7,7 +7,7 @@ import json
 import os
 import random
 import time
-from concurrent.futures import ProcessPoolExecutor
+from concurrent.futures import ProcessPoolExecutor, wait
 
 import codec
 import gen
@@ -174,9 +174,46 @@ def run_stream(seed, n, profile, prop_ids, want_lockstep=True, workers=None, sta
     workers = workers or min(16, os.cpu_count() or 4)
     chunks = [list(range(start + k, start + n, workers)) for k in range(workers)]
     chunks = [c for c in chunks if c]
-    results = []
-    with ProcessPoolExecutor(max_workers=len(chunks)) as ex:
-        for part in ex.map(_work, [(seed, c, profile, prop_ids, want_lockstep) for c in chunks]):
-            results.extend(part)
+    jobs = [(seed, c, profile, prop_ids, want_lockstep) for c in chunks]
+    # Watchdog: a worker that never answers (a fork taken while another thread of this process held a lock —
+    # seen once in about a thousand runs on a loaded machine —, or real code that does not terminate on some
+    # input) must not hang the check.  Chunks that are not back in time are abandoned with their processes and
+    # tried once more in a fresh pool; what is still missing then is reported case by case as an
+    # infrastructure failure of those cases ("infra"), which the caller turns into a verdict by its rules.
+    limit = float(os.environ.get("VERIF_POOL_LIMIT", 900 + 3.0 * max(len(c) for c in chunks)))
+
+    def attempt(todo):
+        out, left = [], []
+        ex = ProcessPoolExecutor(max_workers=len(todo))
+        pending = ()
+        try:
+            futs = [ex.submit(_work, j_) for j_ in todo]
+            done, pending = wait(futs, timeout=limit)
+            for f, j_ in zip(futs, todo):
+                if f in done:
+                    try:
+                        out.extend(f.result())
+                    except Exception as e:   # a worker died
+                        out.extend(dict(fp="?", dis=[], viol=[], exc=None, steps=0, stats={}, feats={}, index=i_,
+                                        infra="worker process failed: %r" % e) for i_ in j_[1])
+                else:
+                    left.append(j_)
+            if pending:
+                for proc in list(getattr(ex, "_processes", {}).values()):
+                    try:
+                        proc.kill()
+                    except Exception:
+                        pass
+        finally:
+            ex.shutdown(wait=not pending, cancel_futures=True)   # the normal path joins the pool before the next one forks
+        return out, left
+
+    results, left = attempt(jobs)
+    if left:
+        more, left = attempt(left)
+        results.extend(more)
+    for j_ in left:
+        results.extend(dict(fp="?", dis=[], viol=[], exc=None, steps=0, stats={}, feats={}, index=i_,
+                            infra="no answer from the worker process within %d s (twice)" % limit) for i_ in j_[1])
     results.sort(key=lambda r: r["index"])
     return results
